@@ -181,10 +181,11 @@ func checkC16(c *Ctx, r *Report) {
 			r3.mustPass(fn, serve+": dialAddr=a guarded-by "+g.name, q, len(nonNilIn))
 		}
 		// index bound: the loop body (the NewMultiaddrBytes call) is reachable only under i < maxPeerAddresses
-		r3.guard(fn, "NewMultiaddrBytes(ab)", defCalls, "i < maxPeerAddresses", edgeCmp(func(b *ssa.BinOp) bool {
-			n, ok := constInt(b.Y)
-			return ok && n == maxAddrs && b.Op == token.GEQ
-		}, false), nil)
+		r3.guard(fn, "NewMultiaddrBytes(ab)", defCalls, "i < maxPeerAddresses", edgeExcl(func(v ssa.Value) bool {
+			// the range index of the address loop (phi+1) or any int compared with the constant
+			_, isC := constInt(v)
+			return !isC && isIntType(v.Type())
+		}, func(v ssa.Value) bool { n, ok := constInt(v); return ok && n == maxAddrs }, ordEQ, ordGT), nil)
 		r3.guard(fn, "call dialBack", dialBacks, "dialAddr != nil", edgeNil(isValue(dialAddrPhi), false), nil)
 		r3.guard(fn, "policy/dial-data request", findInstrs(fn, func(in ssa.Instruction) bool { return in == policy.(ssa.Instruction) }), "dialAddr != nil", edgeNil(isValue(dialAddrPhi), false), nil)
 	} else if fn != nil {
@@ -295,9 +296,7 @@ func checkC16(c *Ctx, r *Report) {
 			}
 		}
 		ge := func(x func(ssa.Value) bool, limit string) EdgePred {
-			return edgeCmp(func(b *ssa.BinOp) bool {
-				return b.Op == token.GEQ && x(strip2(b.X)) && isLoadOfField(rlT+"."+limit)(strip2(b.Y))
-			}, false)
+			return edgeExcl(func(v ssa.Value) bool { return x(strip2(v)) }, func(v ssa.Value) bool { return isLoadOfField(rlT + "." + limit)(strip2(v)) }, ordEQ, ordGT)
 		}
 		inProg := func(v ssa.Value) bool {
 			return derivesFrom(v, isLoadOfField(rlT+".inProgressReqs")) && !isLoadOfField(rlT+".inProgressReqs")(v)
@@ -318,11 +317,10 @@ func checkC16(c *Ctx, r *Report) {
 	if acc := r5.need(acceptDDK); acc != nil {
 		writes := findInstrs(acc, fieldWritePred(rlT+".dialDataReqs"))
 		r5.guard(acc, "append dialDataReqs", writes, "!closed", edgeBool(isLoadOfField(rlT+".closed"), false), nil)
-		r5.guard(acc, "append dialDataReqs", writes, "len(dialDataReqs) < DialDataRPM", edgeCmp(func(b *ssa.BinOp) bool {
-			call, _ := strip2(b.X).(*ssa.Call)
-			return b.Op == token.GEQ && call != nil && calleeKey(call) == "builtin.len" && isLoadOfField(rlT+".dialDataReqs")(strip2(call.Call.Args[0])) &&
-				isLoadOfField(rlT+".DialDataRPM")(strip2(b.Y))
-		}, false), nil)
+		r5.guard(acc, "append dialDataReqs", writes, "len(dialDataReqs) < DialDataRPM", edgeExcl(func(v ssa.Value) bool {
+			call, _ := strip2(v).(*ssa.Call)
+			return call != nil && calleeKey(call) == "builtin.len" && isLoadOfField(rlT+".dialDataReqs")(strip2(call.Call.Args[0]))
+		}, func(v ssa.Value) bool { return isLoadOfField(rlT + ".DialDataRPM")(strip2(v)) }, ordEQ, ordGT), nil)
 		for _, ret := range returnsOf(acc) {
 			if b, ok := constBool(retVal(ret, 0)); ok && b {
 				w, n := (&Cut{Fn: acc, Target: func(in ssa.Instruction) bool { return in == ssa.Instruction(ret) },
